@@ -16,7 +16,7 @@ import (
 // every build configuration (part B: prog.go, compared by the driver).
 
 var c07Arenas [3]*hx.Arena
-var c07Long [3]*hx.Arena         // 20480 words each: vectors far beyond any block size a kernel may use
+var c07Long [3]*hx.Arena         // 139264 words each: vectors far beyond any block size a kernel may use
 var c07FarLo, c07FarHi *hx.Arena // data regions exactly 4 GiB apart (nil when the address space cannot be reserved)
 
 func init() {
@@ -25,7 +25,7 @@ func init() {
 		Setup: func(c *hx.Ctx) {
 			for i := range c07Arenas {
 				c07Arenas[i] = hx.NewArena()
-				c07Long[i] = hx.NewArenaPages(40)
+				c07Long[i] = hx.NewArenaPages(272)
 			}
 			if lo, hi, err := hx.NewFarPair(2); err == nil {
 				c07FarLo, c07FarHi = lo, hi
@@ -91,9 +91,14 @@ func c07Case(c *hx.Ctx, r *hx.RNG, idx int64) {
 	if r.Chance(3) {
 		n = r.Range(200, 700) // beyond the statement's 0..70: block-copy paths a kernel may grow for long vectors
 	}
-	long := r.Intn(3000) == 0 && kern >= 3
+	veryLong := kern >= 3 && (idx/int64(len(kernelNames)))%4000 == 7 // a fixed share per kernel: every vector kernel sees lengths beyond 2^16 in every run
+	long := kern >= 3 && (r.Intn(3000) == 0 || veryLong)
 	if long { // around multiples of 4096 words, and in between
-		n = []int{4095, 4096, 4097, 8191, 8192, 8193, 12287, 12288, 12289, 16384, 16385, r.Range(4098, 20000), r.Range(8194, 20000)}[r.Intn(13)]
+		n = []int{4095, 4096, 4097, 8191, 8192, 8193, 12287, 12288, 12289, 16384, 16385, r.Range(4098, 20000), r.Range(8194, 20000),
+			65535, 65536, 65537, 131072, 131073, r.Range(65538, 139000)}[r.Intn(19)] // (also beyond 2^16 and 2^17 words: a wrapper may cut long calls into chunks)
+		if veryLong {
+			n = []int{65537, 65536 + r.Range(2, 5000), 131072, 131073, r.Range(65538, 139000), r.Range(131074, 139000)}[r.Intn(6)]
+		}
 	}
 	// scalar kernels
 	switch name {
@@ -410,6 +415,9 @@ func c07Case(c *hx.Ctx, r *hx.RNG, idx int64) {
 	c.Classes[fmt.Sprintf("shape/%d", shape)]++
 	if long {
 		c.Classes["long-vector"]++
+		if n > 65536 {
+			c.Classes["long-vector-beyond-2^16-words/"+name]++
+		}
 	}
 	if far {
 		c.Classes["addresses-4GiB-apart"]++
@@ -462,6 +470,15 @@ func c07Case(c *hx.Ctx, r *hx.RNG, idx int64) {
 	// portable twin on ordinary memory, same sharing pattern
 	zg, xg, yg := layout(func(i, k int) []decimal.Word { return make([]decimal.Word, k) })
 	cg := call(true, zg, xg, yg)
+	if n > 20000 {
+		// beyond 20 000 words the definition (two quadratic radix conversions per case) is not evaluated: the selected
+		// kernel is compared with its portable twin, which is compared with the definition at every length below
+		if !eqWords(za1, zg) || ca != cg {
+			c.Violate("kernel-twin-mismatch", fmt.Sprintf("%s: selected z=%s c=%d, portable z=%s c=%d", desc, showDiff(za1, zg), ca, showDiff(zg, za1), cg), "")
+		}
+		c.Count("long_vectors_beyond_20000_words_twin_only", 1)
+		return
+	}
 	// mathematical definition
 	var zd []decimal.Word
 	var cd *big.Int
